@@ -166,7 +166,16 @@ pub fn run(a: &Args) {
             let key = keys[(ci + oi * 2) % keys.len()];
             let (text, ival) = opt_text(class, &mut r);
             argv.push(if class == "noeq" { format!("{}-novalue", key) } else { format!("{}={}", key, text) });
-            let class = if class == "int" && text.starts_with('+') { "plusint" } else { class };
+            let trimmed: Option<i32> = text.trim().parse().ok();
+            let (class, ival) = if class == "int" && text.starts_with('+') {
+                ("plusint", ival)
+            } else if class == "int" && (text == "-0" || (text.len() > 1 && text.trim_start_matches('-').starts_with('0'))) {
+                ("altint", ival)
+            } else if class == "overflow" && text.trim() != text && trimmed.is_some() {
+                ("altint", trimmed.unwrap())
+            } else {
+                (class, ival)
+            };
             opts_j.push(json!({"k": hexs(key.as_bytes()), "text": hexs(text.as_bytes()), "class": class, "ival": ival}));
         }
         {
